@@ -175,8 +175,12 @@ func init() {
 			o.site = st.callerPos(th)
 		}
 		// fresh user memory is arbitrary: fill with symbolic garbage so uninitialised reads are not silently zero
-		for i := 0; i < n; i++ {
-			o.bytes[i] = st.c.Const(8, 0xa5)
+		if n >= bigObj {
+			o.fill = st.c.Const(8, 0xa5)
+		} else {
+			for i := 0; i < n; i++ {
+				o.setByte(i, st.c.Const(8, 0xa5))
+			}
 		}
 		st.userLive[o.id] = true
 		st.userAllocs++
